@@ -60,7 +60,8 @@ class BatchWorld(World):
             if c.get("reward") == "persample":
                 c["reward"] = "scalar"
         c["B"] = B
-        cfg = {"level": level, "B": B, "c": c}
+        # the batched replica either is constructed with batch size B or reaches it through the batchsz setter after a probe step
+        cfg = {"level": level, "B": B, "c": c, "resized_from": rc.choice([None, None, 1, 1, 2]) if level in ("neuron", "synapse", "connection", "layer") else None}
         T = ro.randint(4, 20 if tier == "thorough" else 14)
         ops = []
         for t in range(T):
@@ -74,6 +75,16 @@ class BatchWorld(World):
     def execute(self, desc, ctx):
         cfg = desc["config"]
         return getattr(self, "_exec_" + cfg["level"])(desc, ctx)
+
+    @staticmethod
+    def _resize(ctx, facts, obj, B, probe):
+        """bring a replica built with another batch size to B through the public batchsz setters (after one probe step)"""
+        with ctx.impl("batchsz setter", facts):
+            probe()
+            targets = obj if isinstance(obj, (list, tuple)) else [obj]
+            for t in targets:
+                t.batchsz = B
+        ctx.fault("batch_resized_after_probe_step")
 
     def _cmp(self, ctx, facts, what, big, singles, exact=True, tol=None, knife=None):
         """big: tensor with leading batch dim; singles: list of tensors with leading dim 1"""
@@ -98,11 +109,15 @@ class BatchWorld(World):
         cfg = desc["config"]
         c, B = cfg["c"], cfg["B"]
         facts = {"level": "neuron", "cls": c["cls"], "B": B, "lock": c["lock"]}
+        B0 = cfg.get("resized_from")
         with ctx.impl("build", facts):
-            big = neuron_world.WORLD._build(c)
+            big = neuron_world.WORLD._build(c if not B0 else dict(c, B=B0))
             singles = [neuron_world.WORLD._build(dict(c, B=1)) for _ in range(B)]
         for m in [big] + singles:
             m.eval()        # adaptation frozen
+        if B0 and B0 != B:
+            self._resize(ctx, facts, big, B, lambda: big(torch.ones((B0,) + tuple(c["shape"])) * 3.0))
+            big.clear()
         shape = tuple(c["shape"])
         gap = c["thresh"] - c["rest"]
         ctx.log("config", "neuron", c["cls"], B)
@@ -133,10 +148,18 @@ class BatchWorld(World):
         cfg = desc["config"]
         c, B = cfg["c"], cfg["B"]
         facts = {"level": "synapse", "kind": c["kind"], "B": B, "delay_k": c["delay_k"]}
+        B0 = cfg.get("resized_from")
         with ctx.impl("build", facts):
-            big = synapse_world.WORLD._build(c, False)
+            big = synapse_world.WORLD._build(c if not B0 else dict(c, B=B0), False)
             singles = [synapse_world.WORLD._build(dict(c, B=1), False) for _ in range(B)]
         shape = tuple(c["shape"])
+        if B0 and B0 != B:
+            def probe():
+                x0 = torch.ones((B0,) + shape, dtype=torch.bool)
+                big(*([x0] + ([torch.ones((B0,) + shape)] if c["kind"] == "deltaplus" else [])))
+                big.current_at(torch.zeros((B0,) + shape))
+            self._resize(ctx, facts, big, B, probe)
+            big.clear()
         ctx.log("config", "synapse", c["kind"], B, c["delay_k"])
         nsp = 0
         for op in desc["ops"]:
@@ -175,13 +198,22 @@ class BatchWorld(World):
         delayed = bool(c.get("delayed")) or "kmax" in c
         facts = {"level": "connection", "ckind": c["ckind"], "skind": c["skind"], "B": B, "delayed": delayed}
         W = connection_world.WORLD
+        B0 = cfg.get("resized_from")
         with ctx.impl("build", facts):
-            reps = [W._build(c, delayed, ctx)] + [W._build(dict(c, B=1), delayed, ctx) for _ in range(B)]
+            reps = [W._build(c if not B0 else dict(c, B=B0), delayed, ctx)] + [W._build(dict(c, B=1), delayed, ctx) for _ in range(B)]
             if delayed:
                 for r in reps:
                     r.delay = W._delay_tensor(c, r, c["delay_k"])
         big, singles = reps[0], reps[1:]
         inshape = tuple(c["inshape"])
+        if B0 and B0 != B:
+            def probe():
+                x0 = torch.ones((B0,) + inshape, dtype=torch.bool)
+                big(*([x0] + ([torch.ones((B0,) + inshape)] if c["skind"] == "deltaplus" else [])))
+                if delayed:
+                    big.syncurrent
+            self._resize(ctx, facts, big, B, probe)
+            big.clear()
         ctx.log("config", "connection", c["ckind"], c["skind"], B, delayed)
         nsp = 0
         for op in desc["ops"]:
@@ -218,7 +250,8 @@ class BatchWorld(World):
         facts = {"level": "layer", "kind": c["kind"], "combine": c.get("combine"), "B": B}
         built = []
         with ctx.impl("build", facts):
-            for bb in [B] + [1] * B:
+            B0 = cfg.get("resized_from")
+            for n_, bb in enumerate([B0 or B] + [1] * B):
                 cc = dict(c, B=bb)
                 conns, neurons = L._components(cc)
                 layer = L._layer(cc, conns, neurons)
@@ -238,6 +271,12 @@ class BatchWorld(World):
                 return [r[f"n{j}"] for j in range(len(neurons))]
             return list(layer(xs[0], feedfwd_neuron_kwargs=nkw, feedback_neuron_kwargs=nkw))
 
+        if B0 and B0 != B:
+            def probe():
+                nin0 = len(c["conns"]) if c["kind"] == "biclique" else 1
+                run(built[0], [torch.ones((B0, c["conns"][i]["in"]), dtype=torch.bool) for i in range(nin0)])
+            self._resize(ctx, facts, list(built[0][1]) + list(built[0][2]), B, probe)
+            built[0][3].clear()
         for op in desc["ops"]:
             if op["op"] == "clear":
                 ctx.fault("clear_all_replicas")
